@@ -9,7 +9,7 @@ CLAIMED = {
             "tables from the supported pattern grammar (and the shipped tables) with 1..6 messages of 1..6 units (entry spellings, relative tails, undefined headers) "
             "are delivered under any segmentation, after broken or overrun predecessors, with the -113 text allocation failing. An independent composer and a "
             "pattern-language acceptor predict, per unit delimited by hook H2, the single entry that must run (tag, SCPI_IsCmd, effective header) or the single -113 "
-            "whose queued text contains the header. Exploration level.",
+            "whose queued text contains the header; one instrument in five has two tables and handlers that point the context at the other one (looked up per unit). Exploration level.",
             "Tables are restricted to the class C03 describes (keywords of a pattern pairwise distinct in short and long form); numeric-suffix values are C03's subject "
             "and not asserted. Messages longer than the input buffer are skipped.",
             "deterministic simulation: seeded tables/messages/histories with allocation faults against an independent composer and acceptor"),
@@ -25,12 +25,12 @@ CLAIMED = {
             "Framing state is carried across units and messages; the simulator drives seeded messages of 1..6 units over scripted handlers (queries emitting 0..4 "
             "items of every result type, succeeding, failing silently, failing after emitting, raising errors mid-unit; commands), any segmentation, after any "
             "previous message, with write() returning short/0/-1 and flush() failing. Captured bytes and flush count must equal one member of the acceptable set "
-            "computed from independently encoded payloads (table A.2, both readings of the open rows). Exploration level.",
+            "computed from independently encoded payloads (table A.2, both readings of the open rows); handlers may relay a message to a second context, whose own response must be framed too. Exploration level.",
             "A query whose handler succeeded with zero items may or may not count as a response unit (both accepted). Float/double digits come from the stand-alone "
             "formatter (C16's subject).",
             "deterministic simulation: seeded handler-failure and transport-fault sequences, acceptable-set framing model"),
     "C17": ("DESIGN.md §4 C17",
-            "Blocks are produced by a sequence of calls sharing state; seeded handler scripts emit arrays of all ten element types in NORMAL/SWAPPED/ASCII, one-shot "
+            "Blocks are produced by a sequence of calls sharing state; seeded handler scripts emit arrays of all ten element types in NORMAL/SWAPPED/ASCII (source arrays at element-aligned, not only allocator-aligned addresses), one-shot "
             "and streamed blocks with every split of header/data calls (zero-length pieces, incomplete, over-length at any point), header-only calls up to 10^9-1, "
             "items after complete/incomplete blocks, under transport faults. Every call's bytes are compared with an independent shift-based encoder; over-length "
             "data must be refused with an error. Exploration level.",
@@ -67,28 +67,28 @@ CLAIMED = {
             "deterministic simulation: seeded histories with allocation-fault injection against a reference FIFO and ownership ledger"),
     "C18": ("DESIGN.md §4 C18",
             "Every SYST:ERR? issued in seeded queue/heap histories (texts 0..400 characters, quotes at and around the 255 boundary and at heap-wrap part "
-            "boundaries, codes with and without description) is parsed by an independent IEEE 488.2 reader: one valid string, content a prefix of "
-            "description;text, <= 255 characters, not cut earlier than the escaped-length limit allows, entry consumed. malloc and static-heap builds.",
+            "boundaries, codes with and without description, errors pushed from inside the write callback while a response is being sent) is parsed by an independent IEEE 488.2 reader: one valid string, content a prefix of "
+            "description;text, <= 255 characters, not cut earlier than the escaped-length limit allows, entry consumed. malloc and static-heap builds, and the build with a user error list (descriptions containing quotes).",
             "The 255 limit is accepted on either reading (escaped or unescaped length). Descriptions are taken from the library's X-macro list as data.",
             "deterministic simulation: seeded heap-layout histories, independent response reader as oracle"),
     "C20": ("DESIGN.md §4 C20",
             "Static-heap build: seeded histories of pushes with texts of length 0..heap+3, pops via SYST:ERR? and SCPI_ErrorPop, clears and overflows on heaps "
             "of 2..64 (and 600) bytes; reference queue 'exactly the pushed text or nothing', text mandatory when the queue was empty and it fits; exact-size "
-            "heap allocation under ASan guards everything outside the heap.",
+            "heap allocation under ASan guards everything outside the heap; errors are also pushed from inside the write callback while SYST:ERR? is answering.",
             "Exploration; whether a text is stored when the queue is not empty is deliberately not asserted (statement allows nothing).",
             "deterministic simulation: seeded histories with heap exhaustion against a reference queue"),
     # id: (design_ref, level text, level_note, technique)
     "C11": ("DESIGN.md §4 C11",
             "Seeded search over interleavings of controller status commands (segmented input, several units per message) and firmware register / "
             "error-queue calls, including firmware calls placed inside running handlers; the invariant STB == summary(registers, queue) is evaluated "
-            "from SCPI_RegGet/SCPI_ErrorCount after every API call, handler, unit and input call. Exploration: a clean batch is evidence, not proof.",
+            "from SCPI_RegGet/SCPI_ErrorCount after every API call, handler, unit and input call; deployments without error/control/reset callback or without any interface, SRQ callbacks that fail or push an error themselves; default build and the build with user register groups. Exploration: a clean batch is evidence, not proof.",
             "Trusts the harness observers and that every legal interleaving is an order of whole API calls (library is documented non-reentrant). "
             "Direct writes to STB summary bits are outside the history alphabet and not generated.",
             "deterministic simulation: seeded cooperative scheduler over controller/firmware actors, state invariant checked after every event"),
     "C12": ("DESIGN.md §4 C12",
             "Same simulated histories as C11 with transition oracles on before/after snapshots: error class bit per pushed code (all class boundaries, "
             "thorough: all 65536 codes inside long histories), condition 0->1 latching, persistence of event bits across non-clearing operations and "
-            "units, SRQ callback value and rising-edge announcement. Exploration level.",
+            "units, SRQ callback value and rising-edge announcement; in the build with user register groups also latching through a positive-transition filter and through the summary bit a group below writes into a condition register. Exploration level.",
             "DER appearing on a queue-overflowing push is tolerated (statement open on whether -350 is a queued error); extra SRQ callbacks while MSS "
             "is already 1 are not flagged.",
             "deterministic simulation: seeded histories with before/after transition rules and callback observers"),
